@@ -67,22 +67,17 @@ def linear_spline(
     if inverse:
         inv_bin_idx = torchutils.searchsorted(cdf, inputs)
 
-        bin_boundaries = (
-            torch.linspace(0, 1, num_bins + 1)
-            .view([1] * inputs.dim() + [-1])
-            .expand(*inputs.shape, -1)
-        )
-
-        slopes = (cdf[..., 1:] - cdf[..., :-1]) / (
-            bin_boundaries[..., 1:] - bin_boundaries[..., :-1]
-        )
-        offsets = cdf[..., 1:] - slopes * bin_boundaries[..., 1:]
+        # The slope of a bin is its mass over its width, exactly as in the forward pass. (Differencing the
+        # cumulative sum instead loses the mass of faint bins to rounding, badly so in single precision.)
+        bin_width = 1.0 / num_bins
+        slopes = pdf / bin_width
 
         inv_bin_idx = inv_bin_idx.unsqueeze(-1)
         input_slopes = slopes.gather(-1, inv_bin_idx)[..., 0]
-        input_offsets = offsets.gather(-1, inv_bin_idx)[..., 0]
+        input_left_cdf = cdf.gather(-1, inv_bin_idx)[..., 0]
+        input_left = inv_bin_idx[..., 0].to(inputs.dtype) * bin_width
 
-        outputs = (inputs - input_offsets) / input_slopes
+        outputs = (inputs - input_left_cdf) / input_slopes + input_left
         outputs = torch.clamp(outputs, 0, 1)
 
         logabsdet = -torch.log(input_slopes)
